@@ -21,7 +21,7 @@ from .c05 import gen_actions, make_gen, norm_item
 
 PROP = 'C20'
 LEVEL = 'fault_enumeration'
-N = {'quick': 300, 'thorough': 15000}
+N = {'quick': 240, 'thorough': 15000}
 BATCH = 4
 RULE = ('seeded small worlds (1-4 segments, <=3 channels, optional index file, DAQmx worlds included); per world the '
         'scenarios read / read_metadata / open+ops+close / with-open / defragment / TdmsWriter with-block over {path, '
